@@ -19,6 +19,7 @@ import (
 	"math/big"
 	"os"
 	"path/filepath"
+	"runtime"
 	"sort"
 	"strings"
 	"time"
@@ -272,6 +273,10 @@ func collectSamples(repo string, maxSize int64) []sample {
 		if info.Size() == 0 || info.Size() > maxSize {
 			return nil
 		}
+		if strings.Contains(filepath.Base(p), "bigzero") {
+			// a decompression bomb (the repository's own test decodes it with -o uncompress=false)
+			return nil
+		}
 		files = append(files, p)
 		return nil
 	})
@@ -457,7 +462,24 @@ func replay(o *hlib.Out, r *hlib.Rand, file string) {
 	}
 }
 
+// memGuard ends the process with a visible harness error before a runaway evaluation or a
+// decompression bomb makes the kernel's OOM killer choose a victim (other checks share the machine)
+func memGuard(limit uint64) {
+	go func() {
+		var ms runtime.MemStats
+		for {
+			time.Sleep(500 * time.Millisecond)
+			runtime.ReadMemStats(&ms)
+			if ms.HeapAlloc > limit {
+				fmt.Fprintf(os.Stderr, "c12 harness: heap %d MB exceeds the guard, giving up\n", ms.HeapAlloc>>20)
+				os.Exit(3)
+			}
+		}
+	}()
+}
+
 func main() {
+	memGuard(8 << 30)
 	cfg := hlib.ParseFlags()
 	o := hlib.NewOut(cfg.Out)
 	defer o.Close()
